@@ -19,7 +19,7 @@ EDITS = ["none", "adr+1", "adr-1", "adr-relative", "adr-swap", "stored+1", "stor
          "elen+1", "elen-1", "elen=0", "dirsize+1", "dirsize-1", "dirsize-big", "no-sentinel", "sentinel-nonzero",
          "sentinel-extra", "swap-entries-reindexed", "swap-entries-old-index", "iv-index+1", "iv-zero-based", "iv-mod-256",
          "trailing", "truncate-payload", "pmac-flip", "emac-flip", "payload-flip", "empty-payload",
-         "enc-tag-on-plain", "reorder-tags", "drop-entry", "dup-entry"]
+         "enc-tag-on-plain", "reorder-tags", "drop-entry", "dup-entry", "stray-after-mac"]
 
 
 def make_body(rng, key, pos, many=False):
@@ -152,6 +152,37 @@ def apply_edit(rng, b, key, kind):
         relen = readr = True
     elif kind == "reorder-tags":
         rng.shuffle(e.tags)
+    elif kind == "stray-after-mac":
+        # one byte too many inside the entry, BEHIND its MAC.  A reader that takes the MAC over "everything but the last 16
+        # bytes" then covers fields || MAC[0], so the MAC has to be self-referential: MAC(fields || b)[0] = b.  Found by
+        # varying a free tag value (about two tries).
+        import refaes
+        stray = bytes([rng.randrange(256)])
+        free = layout.Tag(0x7E, b"\x00")
+        e.tags.append(free)
+        found = False
+        for v in range(256):
+            free.v = bytes([v])
+            e.stray = b""
+            b.relayout(key)                                  # lengths, addresses, MACs of the well-formed body
+            e.elen += 1                                      # the entry announces one byte more ...
+            b.dirsize += 1                                   # ... the directory too ...
+            for x in es:
+                x.adr += 1                                   # ... and every payload moves by one
+            b.remac(key)
+            idx = es.index(e) + 1
+            iv = (e.iv_index if e.iv_index is not None else idx).to_bytes(16, "big")
+            body = b.entry_body(e)
+            for cand in range(256):
+                m = refaes.cmac(key, body + bytes([cand]), iv)
+                if m[0] == cand:
+                    e.emac, e.stray, found = m, stray, True
+                    break
+            if found:
+                break
+        if not found:
+            raise ValueError("no self-referential MAC found")
+        return b.ser()
     elif kind == "drop-entry" and len(es) > 1:
         del es[i]
         relen = readr = True
